@@ -560,3 +560,34 @@ def each_run_starts_clean(ctx):
             ctx.bad(key, s.node, msg, s)
         else:
             ctx.undecided(key, mentions[0], 'the way the cleanup default is applied was not recognised', s)
+
+
+@rule('C14.R10', min_instances=1)
+def cleanup_hooks_are_looked_up_on_the_object(ctx):
+    """HasStates.on_cleanup forwards to on_error / on_restart / on_stop - the documented way for a module to define its
+    cleanup is to OVERRIDE these.  They are therefore reached through the object (`self.on_stop(sm)`, `getattr(self, name)(sm)`),
+    never as function objects taken from the class body (a class level table `((Stop, on_stop), ...)` called as
+    `handler(self, sm)` binds HasStates' own functions: the override of a subclass runs zero times, the module goes straight
+    to its stopped status instead of executing its cleanup)"""
+    m = ctx.m
+    ci = m.classes.get('frappy.states.HasStates')
+    if ci is None or 'on_cleanup' not in ci.methods:
+        raise AnchorMissing('frappy.states.HasStates.on_cleanup not found')
+    f = ci.methods['on_cleanup']
+    ctx.analysed(f)
+    hooks = {n for n in ci.methods if n in ('on_error', 'on_restart', 'on_stop')}
+    key = f'{f.qualname}:cleanup hooks are reached through the object'
+    # function objects of the hooks stored at class level
+    stored = {a: v for a, v in ci.assigns.items() if any(isinstance(x, ast.Name) and x.id in hooks for x in ast.walk(v))}
+    by_object = [c for c in calls_in(f.node) if isinstance(c.func, ast.Attribute) and dotted(c.func.value) == 'self' and c.func.attr in hooks] + \
+        [c for c in calls_in(f.node) if isinstance(c.func, ast.Call) and dotted(c.func.func) == 'getattr' and c.func.args and src(c.func.args[0]) == 'self']
+    unbound = [c for c in calls_in(f.node) if isinstance(c.func, ast.Name) and c.args and src(c.args[0]) == 'self' and
+               any(a in src(resolved(v, f.node)) for a in stored for v, st, how in local_assigns(f.node, c.func.id) if v is not None)]
+    if unbound:
+        ctx.bad(key, unbound[0], f'`{src(unbound[0])}` calls a function object taken from the class level table `{sorted(stored)[0]}` with self handed over by hand: a '
+                'subclass (or instance) that overrides on_error / on_restart / on_stop is never reached - its cleanup runs zero times, a cleanup sequence returned by '
+                'on_stop never starts and the module reports its stopped status at once', f)
+    elif by_object:
+        ctx.ok(key, by_object[0], 'self.on_...(sm) / getattr(self, name)(sm)', f)
+    else:
+        ctx.undecided(key, f.node, 'how on_cleanup reaches the hooks was not recognised', f)
